@@ -20,9 +20,12 @@ func (consumer *Consumer) Loop() {
 		if consumer.lifecycle.IsKilled() {
 			return
 		}
+		// read the step before the queues: once the close step is set every producer
+		// has finished, so empty queues observed afterwards are final
+		step := consumer.lifecycle.Step()
 		if len(consumer.loopData.chans.dirChan) == 0 &&
 			len(consumer.loopData.chans.fileChan) == 0 {
-			if consumer.lifecycle.Step() == StepClose {
+			if step == StepClose {
 				return
 			}
 			runtime.Gosched()
